@@ -357,3 +357,71 @@ func VP_C13_RequestFragmentWellFormed() {
 	}
 	vpCover("end")
 }
+
+// Unit 5: every field at or next to the 256-byte limit *at once* (the largest messages the
+// format allows: 4*256 payload bytes + 8 prefix bytes): encoder output, round trip, unmarshal.
+func VP_C13_AllFieldsNearLimit() {
+	var l [4]int
+	for i := 0; i < 4; i++ {
+		l[i] = 254 + vpChoose("nearlimit", 3)
+	}
+	r := vpReq(l)
+	var w vpBuf
+	err := r.Encode(&w)
+	vpAssert("near-limit-encodes", err == nil)
+	if err != nil {
+		return
+	}
+	vpAssert("near-limit-wire-format", bytes.Equal(w.b, refEncode(r.Login, r.Password, r.Service, r.Realm)))
+	var d Request
+	derr := d.Decode(bytes.NewReader(w.b))
+	vpAssert("near-limit-decodes", derr == nil)
+	if derr == nil {
+		vpAssert("near-limit-roundtrip-identical", vpAnd(vpAnd(d.Login == r.Login, d.Password == r.Password), vpAnd(d.Service == r.Service, d.Realm == r.Realm)))
+	}
+	var u Request
+	uerr := u.Unmarshal(w.b)
+	vpAssert("near-limit-unmarshals", uerr == nil)
+	if uerr == nil {
+		vpAssert("near-limit-unmarshal-identical", vpAnd(vpAnd(u.Login == r.Login, u.Password == r.Password), vpAnd(u.Service == r.Service, u.Realm == r.Realm)))
+	}
+	// the same stream delivered in two reads cut inside the third field
+	var fr Request
+	f := &vpFragReader{data: w.b, maxReads: 2, maxZeros: 0, endErr: io.EOF, cuts: []int{2 + l[0] + 2 + l[1] + 2 + 100}}
+	ferr := fr.Decode(f)
+	vpAssert("near-limit-fragmented-decodes", ferr == nil)
+	if ferr == nil {
+		vpAssert("near-limit-fragmented-identical", fr == d)
+	}
+	vpCover("end")
+}
+
+// Unit 6: the bytes an encoder returned stay what they were: encoding further messages (of
+// either kind) afterwards does not change an earlier result (no shared or recycled buffers
+// behind returned slices), and each result is the wire format of its own message.
+func VP_C13_MarshalResultsAreIndependent() {
+	var la, lb [4]int
+	for i := 0; i < 4; i++ {
+		la[i] = 1 + vpChoose("alen", 2)
+		lb[i] = 1 + vpChoose("blen", 2)
+	}
+	a := Request{vpStr("a-login", la[0]), vpStr("a-password", la[1]), vpStr("a-service", la[2]), vpStr("a-realm", la[3])}
+	b := Request{vpStr("b-login", lb[0]), vpStr("b-password", lb[1]), vpStr("b-service", lb[2]), vpStr("b-realm", lb[3])}
+	ra := Response{vpBool("a-result"), vpStr("a-msg", vpChoose("a-msglen", 3))}
+	rb := Response{vpBool("b-result"), vpStr("b-msg", vpChoose("b-msglen", 3))}
+	da, e1 := a.Marshal()
+	dra, e2 := ra.Marshal()
+	db, e3 := b.Marshal()
+	drb, e4 := rb.Marshal()
+	vpAssert("marshal-sequence-ok", e1 == nil && e2 == nil && e3 == nil && e4 == nil)
+	if e1 != nil || e2 != nil || e3 != nil || e4 != nil {
+		return
+	}
+	vpAssert("earlier-request-bytes-unchanged-by-later-encodes", bytes.Equal(da, refEncode(a.Login, a.Password, a.Service, a.Realm)))
+	vpAssert("earlier-response-bytes-unchanged-by-later-encodes", bytes.Equal(dra, refEncode(refRespText(ra.Result, ra.Message))))
+	vpAssert("later-request-bytes-are-its-own", bytes.Equal(db, refEncode(b.Login, b.Password, b.Service, b.Realm)))
+	vpAssert("later-response-bytes-are-its-own", bytes.Equal(drb, refEncode(refRespText(rb.Result, rb.Message))))
+	var ua Request
+	vpAssert("earlier-result-still-decodes-to-its-message", ua.Unmarshal(da) == nil && ua == a)
+	vpCover("end")
+}
